@@ -12,7 +12,10 @@ RECV_DECL = {"ref": "&self", "mut": "&mut self", "own": "self", "pinref": "self:
 ARG_TY = {"none": None, "i64": "i64", "cstruct": "Pt", "ref": "&u64", "mutref": "&mut u64", "slice": "&[u8]",
           "mutslice": "&mut [u8]", "str": "&str", "opt": "Option<u64>", "optnpo": "Option<&u64>", "optptr": "Option<*const u8>",
           "optmut": "Option<&mut u64>", "slice64": "&[u64]", "mutslice64": "&mut [u64]", "slicezst": "&[()]", "optstruct": "Option<Pt>", "rawptr": "*const u8",
-          "result": "Result<u64, u64>", "into": "impl Into<u64>", "callback": "OpaqueCallback<u64>", "iter": "CIterator<u64>"}
+          "result": "Result<u64, u64>", "into": "impl Into<u64>", "callback": "OpaqueCallback<u64>", "iter": "CIterator<u64>",
+          "aval": "Self::Item", "aref": "&Self::Item", "aslice": "&[Self::Item]", "aopt": "Option<Self::Item>", "ares": "Result<Self::Item, u64>"}
+# shapes over an unwrapped associated type (`type Item;`, implemented as u64)
+ASSOC = ("aval", "aref", "aslice", "aopt", "ares")
 RET_TY = {"unit": None, "i64": "i64", "cstruct": "Pt", "slice": "&[u8]", "mutslice": "&mut [u8]", "str": "&str",
           "opt": "Option<u64>", "optnpo": "Option<&u64>", "optptr": "Option<*const u8>", "result": "Result<u64, ()>", "resunit": "Result<(), ()>",
           "refret": "&u64", "mutrefret": "&mut u64", "optstruct": "Option<Pt>", "resio": "Result<u64, std::io::Error>",
@@ -42,6 +45,8 @@ ARG_BODY = {
     "callback": "let mut a = a; let base = (self.st.get() % 50) as u64; let n = (0..3u64).map(|i| base + i).feed_into_mut(&mut a); let d = n as i64; log(d);",
     "iter": "let d = a.map(|v| v as i64).sum::<i64>(); log(d);",
 }
+ARG_BODY.update({"aval": "let d = (a % 100000) as i64; log(d);", "aref": ARG_BODY["ref"], "aslice": ARG_BODY["slice64"],
+                 "aopt": ARG_BODY["opt"], "ares": ARG_BODY["result"]})
 THIS_REF = {"ref": "self", "mut": "&*self", "pinref": "self.get_ref()", "pinmut": "self.into_ref().get_ref()"}
 THIS_MUT = {"mut": "self", "pinmut": "self.get_mut()"}
 
@@ -95,6 +100,11 @@ RET_DIGEST = {
 def arg_setup(arg, v):
     if arg == "none":
         return "let sent_d = 0i64; let sent_addr = 0i64;", "", "let post: Vec<i64> = vec![];"
+    if arg == "aval":
+        val = ["u64::MAX", "41"][v]
+        return "let av: u64 = %s; let sent_d = (av %% 100000) as i64; let sent_addr = 0i64;" % val, "av", "let post: Vec<i64> = vec![];"
+    if arg in ("aref", "aslice", "aopt", "ares"):
+        return arg_setup({"aref": "ref", "aslice": "slice64", "aopt": "opt", "ares": "result"}[arg], v)
     if arg == "i64":
         val = ["i64::MIN + 1", "41"][v]
         return "let av: i64 = %s; let sent_d = av; let sent_addr = 0i64;" % val, "av", "let post: Vec<i64> = vec![];"
@@ -207,11 +217,16 @@ def forwardable(d):
     return d["recv"] in FWD_CONTAINERS and d["ret"] not in ("slice", "mutslice", "str", "optnpo", "refret", "mutrefret")
 
 
+def uses_assoc(d):
+    return d["arg"] in ASSOC
+
+
 def render_trait(k, d):
     sig = method_sig(d)
     ir = "    #[int_result]\n" if d["ir"] else ""
     fw = "    #[cglue_forward]\n" if forwardable(d) else ""
-    return "    #[cglue_trait]\n%s%s    pub trait T {\n        %s;\n    }\n" % (fw, ir, sig), sig
+    at = "        type Item;\n" if uses_assoc(d) else ""
+    return "    #[cglue_trait]\n%s%s    pub trait T {\n%s        %s;\n    }\n" % (fw, ir, at, sig), sig
 
 
 def method_impl(d, sig, salt=0):
@@ -226,13 +241,16 @@ def render_def(k, d):
     out.append("pub mod d%d {\n    use super::*;\n" % k)
     tr, sig = render_trait(k, d)
     out.append(tr)
-    out.append("    impl T for Imp {\n%s    }\n" % method_impl(d, sig))
+    out.append("    impl T for Imp {\n%s%s    }\n" % ("        type Item = u64;\n" if uses_assoc(d) else "", method_impl(d, sig)))
     # the same trait as the optional member of a group: reached through cast! / as_ref! / as_mut! of the group
-    out.append("    #[cglue_trait]\n    pub trait Mk {\n        fn mk(&self) -> i64;\n    }\n    impl Mk for Imp {\n        fn mk(&self) -> i64 { 7 }\n    }\n")
-    out.append("    cglue_trait_group!(G, Mk, { T });\n    cglue_impl_group!(Imp, G, { T });\n")
+    # (cglue_trait_group! does not accept a trait with an unwrapped associated type - E0107 - so no group there)
+    grp = not uses_assoc(d)
+    if grp:
+        out.append("    #[cglue_trait]\n    pub trait Mk {\n        fn mk(&self) -> i64;\n    }\n    impl Mk for Imp {\n        fn mk(&self) -> i64 { 7 }\n    }\n")
+        out.append("    cglue_trait_group!(G, Mk, { T });\n    cglue_impl_group!(Imp, G, { T });\n")
     # driver
     out.append("    pub fn run(rep: &mut Report) {\n")
-    out.append(driver_blocks(k, d, "m", CONTAINERS[d["recv"]] + (FWD_CONTAINERS[d["recv"]] if forwardable(d) else []) + GROUP_CONTAINERS[d["recv"]]))
+    out.append(driver_blocks(k, d, "m", CONTAINERS[d["recv"]] + (FWD_CONTAINERS[d["recv"]] if forwardable(d) else []) + (GROUP_CONTAINERS[d["recv"]] if grp else [])))
     out.append("    }\n}\n")
     return "".join(out)
 
@@ -307,9 +325,13 @@ def render_combo(k, ds):
     """a multi-method trait: three definitions of the grammar in one vtable, so that a call reaching the
     wrong slot changes the logged state trajectory (each method adds its own salt)"""
     out = ["pub mod d%d {\n    use super::*;\n    #[cglue_trait]\n    pub trait T {\n" % k]
+    if any(uses_assoc(d) for d in ds):
+        out.append("        type Item;\n")
     for j, d in enumerate(ds):
         out.append("        %s;\n" % method_sig(d, "m%d" % j))
     out.append("    }\n    impl T for Imp {\n")
+    if any(uses_assoc(d) for d in ds):
+        out.append("        type Item = u64;\n")
     for j, d in enumerate(ds):
         out.append(method_impl(d, method_sig(d, "m%d" % j), salt=17 * (j + 1)))
     out.append("    }\n    pub fn run(rep: &mut Report) {\n")
